@@ -409,3 +409,75 @@ func extraC05AnswerAlwaysRelayed(c *Ctx, r *Report) {
 		Old: "	rlog.Debug(\"round-trip success\", \"status\", resp.StatusCode)\n", New: "	rlog.Debug(\"round-trip success\", \"status\", resp.StatusCode)\n	if resp.StatusCode == http.StatusGatewayTimeout {\n		return fmt.Errorf(\"backend %s timed out upstream\", endpoint.Name)\n	}\n"})
 }
 var _ = fmt.Sprintf
+
+// ---------- C03-R25: what a reload knows about an endpoint's health it knows by URL ----------
+func init() { registerExtra("C03", extraC03ReloadStatusByURL) }
+
+func extraC03ReloadStatusByURL(c *Ctx, r *Report) {
+	r.Rule("C03-R25", "in the endpoint repository's config loader (and the helpers it calls) a status written into an endpoint record is the constant `unknown`, or is copied from the record the repository holds under the same key (its map, keyed by URL): the URL is what was probed. A status carried over by name, position or type gives an address nobody has probed yet the verdict of another address — a re-pointed entry starts out `healthy` and receives traffic before any check has seen it", 1)
+	lf := c.Fn("internal/adapter/discovery", "(*StaticEndpointRepository).LoadFromConfig")
+	if lf == nil {
+		r.Unresolved("C03-R25", "(*StaticEndpointRepository).LoadFromConfig")
+		return
+	}
+	var fromRepoMap func(v ssa.Value, d int) bool
+	fromRepoMap = func(v ssa.Value, d int) bool {
+		if v == nil || d == 0 {
+			return false
+		}
+		switch x := v.(type) {
+		case *ssa.Lookup:
+			// the repository's own map, loaded from the field — not a table built from it
+			if ld, ok := stripConv(x.X).(*ssa.UnOp); ok {
+				return isField(ld.X, "internal/adapter/discovery", "StaticEndpointRepository", "endpoints")
+			}
+			return false
+		case *ssa.Extract:
+			return fromRepoMap(x.Tuple, d-1)
+		case *ssa.UnOp:
+			return fromRepoMap(x.X, d-1)
+		case *ssa.FieldAddr:
+			return fromRepoMap(x.X, d-1)
+		case *ssa.Phi:
+			for _, e := range x.Edges {
+				if !fromRepoMap(e, d-1) {
+					return false
+				}
+			}
+			return len(x.Edges) > 0
+		case *ssa.Parameter:
+			b := boundValue(x)
+			return b != ssa.Value(x) && fromRepoMap(b, d-1)
+		}
+		return false
+	}
+	n := 0
+	for _, g := range withHelpers(lf, 2) {
+		eachInstr(g, func(in ssa.Instruction) {
+			st, ok := in.(*ssa.Store)
+			if !ok || !isField(st.Addr, pkgDomain, "Endpoint", "Status") {
+				return
+			}
+			n++
+			key := fmt.Sprintf("%s:status-written-%d", fname(lf), n)
+			v := stripConv(st.Val)
+			if k, ok := v.(*ssa.Const); ok && k.Value != nil && strings.Trim(k.Value.ExactString(), "\"") == "unknown" {
+				r.OK("C03-R25", key, in.Pos(), "a record built from configuration starts out unknown")
+				return
+			}
+			if ld, ok := v.(*ssa.UnOp); ok {
+				if fa, ok := ld.X.(*ssa.FieldAddr); ok && isField(fa, pkgDomain, "Endpoint", "Status") && fromRepoMap(fa.X, 6) {
+					r.OK("C03-R25", key, in.Pos(), "copied from the record held under the same URL key")
+					return
+				}
+			}
+			r.Bad("C03-R25", key, in.Pos(), "the loader writes a status that is neither `unknown` nor the status of the record the repository holds under the same URL: an address that has not been probed is given another record's verdict and can receive traffic before any check has marked it routable")
+		})
+	}
+	if n == 0 {
+		r.Undecided("C03-R25", "status-writes", token.NoPos, "the config loader writes no endpoint status")
+	}
+	addMutants(Mutant{Prop: "C03", Name: "first-load-starts-healthy", File: "internal/adapter/discovery/repository.go", Rule: "C03-R25",
+		Old: "			Status:                domain.StatusUnknown,\n", New: "			Status:                initialStatus(len(r.endpoints)),\n",
+		Edits: []Edit{{"internal/adapter/discovery/repository.go", "// resolveURLDefaults determines", "func initialStatus(known int) domain.EndpointStatus {\n	if known == 0 {\n		return domain.StatusHealthy\n	}\n	return domain.StatusUnknown\n}\n\n// resolveURLDefaults determines"}}})
+}
